@@ -270,129 +270,131 @@ def run(ctx):
     u = ctx.unit(repo_unit('UnitTest.cc'))
 
     # ---- R1 macro table
-    R = 'C19-R1'
-    for name, op in list(MACROS.items()) + [('m_expect', None), ('m_msg', None)]:
-        fs = w.func('phosg_witness_c19::' + name)
-        f = fs[0]
-        calls = [c for c in walk(body_of(f)) if c.get('kind') == 'CallExpr']
-        calls = [c for c in calls if _is_expect_generic(c, w)]
+    with ctx.section('C19-R1', 'C19'):
+        R = 'C19-R1'
+        for name, op in list(MACROS.items()) + [('m_expect', None), ('m_msg', None)]:
+            fs = w.func('phosg_witness_c19::' + name)
+            f = fs[0]
+            calls = [c for c in walk(body_of(f)) if c.get('kind') == 'CallExpr']
+            calls = [c for c in calls if _is_expect_generic(c, w)]
+            if len(calls) != 1:
+                ctx.bad(R, name, f, 'macro does not expand to exactly one call of phosg::expect_generic (found %d)' % len(calls))
+                continue
+            c = calls[0]
+            a = call_args(c)
+            pred = strip(a[0])
+            if op is not None:
+                good = pred.get('kind') == 'BinaryOperator' and (
+                    (pred.get('opcode') == op and canon(pred['inner'][0]) == '(1 | a)' and canon(pred['inner'][1]) == '(2 | b)') or
+                    # the mirrored spelling (b) FLIP(op) (a) is the same relation
+                    (pred.get('opcode') == FLIP[op] and canon(pred['inner'][0]) == '(2 | b)' and canon(pred['inner'][1]) == '(1 | a)'))
+                ctx.check(good, R, name + '|operator', c, 'predicate is (a | 1) %s (b | 2)' % op,
+                          'macro predicate is `%s`, expected the relation `(a | 1) %s (b | 2)` applied to the parenthesised operands' % (canon(pred), op))
+            else:
+                # expect / expect_msg: predicate is the parenthesised argument converted to bool
+                inner = pred
+                if inner.get('kind') == 'ImplicitCastExpr' and inner.get('castKind') == 'IntegralToBoolean':
+                    inner = strip(inner['inner'][0])
+                ctx.check(canon(a[0]).endswith('(1 | a)') and 'IntegralToBoolean' in [x.get('castKind') for x in walk(a[0])], R, name + '|predicate', c,
+                          'predicate is the macro argument itself', 'macro predicate is `%s`, expected the argument `(a | 1)`' % canon(a[0]))
+            if name == 'm_msg':
+                rd = ref_decl(a[1]) or {}
+                ctx.check(rd.get('name') == 'm', R, name + '|message', c, 'message argument forwarded', 'message argument not forwarded: %s' % canon(a[1]))
+            else:
+                ctx.check(strip(a[1]).get('kind') == 'StringLiteral', R, name + '|message', c, 'message literal built from the operands', 'message is not a literal: %s' % canon(a[1]))
+            fl = strip(a[2])
+            ln = int_value(a[3])
+            want_file = w.path
+            got_file = fl.get('value', '').strip('"') if fl.get('kind') == 'StringLiteral' else None
+            ctx.check(got_file == want_file and ln == c.get('_line'), R, name + '|file-line', c, '__FILE__/__LINE__ of the use site (%s:%s)' % (got_file, ln),
+                      'file/line arguments are %s:%s, the use site is %s:%s' % (got_file, ln, want_file, c.get('_line')))
+        # expect_raises macro
+        f = w.func('phosg_witness_c19::m_raises')[0]
+        calls = [c for c in walk(body_of(f)) if c.get('kind') == 'CallExpr' and (callee_decl(c, w) or {}).get('name') == 'expect_raises_fn']
         if len(calls) != 1:
-            ctx.bad(R, name, f, 'macro does not expand to exactly one call of phosg::expect_generic (found %d)' % len(calls))
-            continue
-        c = calls[0]
-        a = call_args(c)
-        pred = strip(a[0])
-        if op is not None:
-            good = pred.get('kind') == 'BinaryOperator' and (
-                (pred.get('opcode') == op and canon(pred['inner'][0]) == '(1 | a)' and canon(pred['inner'][1]) == '(2 | b)') or
-                # the mirrored spelling (b) FLIP(op) (a) is the same relation
-                (pred.get('opcode') == FLIP[op] and canon(pred['inner'][0]) == '(2 | b)' and canon(pred['inner'][1]) == '(1 | a)'))
-            ctx.check(good, R, name + '|operator', c, 'predicate is (a | 1) %s (b | 2)' % op,
-                      'macro predicate is `%s`, expected the relation `(a | 1) %s (b | 2)` applied to the parenthesised operands' % (canon(pred), op))
+            ctx.bad(R, 'm_raises', f, 'expect_raises does not expand to one call of expect_raises_fn')
         else:
-            # expect / expect_msg: predicate is the parenthesised argument converted to bool
-            inner = pred
-            if inner.get('kind') == 'ImplicitCastExpr' and inner.get('castKind') == 'IntegralToBoolean':
-                inner = strip(inner['inner'][0])
-            ctx.check(canon(a[0]).endswith('(1 | a)') and 'IntegralToBoolean' in [x.get('castKind') for x in walk(a[0])], R, name + '|predicate', c,
-                      'predicate is the macro argument itself', 'macro predicate is `%s`, expected the argument `(a | 1)`' % canon(a[0]))
-        if name == 'm_msg':
-            rd = ref_decl(a[1]) or {}
-            ctx.check(rd.get('name') == 'm', R, name + '|message', c, 'message argument forwarded', 'message argument not forwarded: %s' % canon(a[1]))
-        else:
-            ctx.check(strip(a[1]).get('kind') == 'StringLiteral', R, name + '|message', c, 'message literal built from the operands', 'message is not a literal: %s' % canon(a[1]))
-        fl = strip(a[2])
-        ln = int_value(a[3])
-        want_file = w.path
-        got_file = fl.get('value', '').strip('"') if fl.get('kind') == 'StringLiteral' else None
-        ctx.check(got_file == want_file and ln == c.get('_line'), R, name + '|file-line', c, '__FILE__/__LINE__ of the use site (%s:%s)' % (got_file, ln),
-                  'file/line arguments are %s:%s, the use site is %s:%s' % (got_file, ln, want_file, c.get('_line')))
-    # expect_raises macro
-    f = w.func('phosg_witness_c19::m_raises')[0]
-    calls = [c for c in walk(body_of(f)) if c.get('kind') == 'CallExpr' and (callee_decl(c, w) or {}).get('name') == 'expect_raises_fn']
-    if len(calls) != 1:
-        ctx.bad(R, 'm_raises', f, 'expect_raises does not expand to one call of expect_raises_fn')
-    else:
-        c = calls[0]
-        a = call_args(c)
-        fl = strip(a[0])
-        got_file = fl.get('value', '').strip('"') if fl.get('kind') == 'StringLiteral' else None
-        d = callee_decl(c, w)
-        targs = [x['type']['qualType'] for x in kids(d) if x.get('kind') == 'TemplateArgument']
-        ctx.check(got_file == w.path and int_value(a[1]) == c.get('_line') and targs == ['std::runtime_error'], R, 'm_raises|instantiation-file-line', c,
-                  'expect_raises(T, fn) -> expect_raises_fn<T>(__FILE__, __LINE__, fn)', 'expect_raises expands to %s with template args %s' % (src_text(c), targs))
+            c = calls[0]
+            a = call_args(c)
+            fl = strip(a[0])
+            got_file = fl.get('value', '').strip('"') if fl.get('kind') == 'StringLiteral' else None
+            d = callee_decl(c, w)
+            targs = [x['type']['qualType'] for x in kids(d) if x.get('kind') == 'TemplateArgument']
+            ctx.check(got_file == w.path and int_value(a[1]) == c.get('_line') and targs == ['std::runtime_error'], R, 'm_raises|instantiation-file-line', c,
+                      'expect_raises(T, fn) -> expect_raises_fn<T>(__FILE__, __LINE__, fn)', 'expect_raises expands to %s with template args %s' % (src_text(c), targs))
 
     # ---- R2 expect_generic and the exception constructor
-    R = 'C19-R2'
-    g = u.func('phosg::expect_generic')[0]
-    ctx.fn('phosg::expect_generic')
-    check_no_goto(g)
-    ps = params_of(g)
-    ctx.require(len(ps) == 4 and dtype(ps[0]) == 'bool', 'expect_generic signature changed')
-    pred_id = ps[0]['id']
-    body = body_of(g)
+    with ctx.section('C19-R2', 'C19'):
+        R = 'C19-R2'
+        g = u.func('phosg::expect_generic')[0]
+        ctx.fn('phosg::expect_generic')
+        check_no_goto(g)
+        ps = params_of(g)
+        ctx.require(len(ps) == 4 and dtype(ps[0]) == 'bool', 'expect_generic signature changed')
+        pred_id = ps[0]['id']
+        body = body_of(g)
 
-    def pred_value(facts):
-        """value of pred implied by facts (True/False/None)"""
-        val = None
-        for n, pol in atoms(facts):
-            rd = ref_decl(n)
-            if rd and rd.get('id') == pred_id:
-                val = pol
-        return val
-    throws = [x for x in walk(body) if x.get('kind') == 'CXXThrowExpr']
-    # a call of a helper that never returns and forwards (msg, file, line) to the exception is a throw site
-    fwd_map = {}
-    for c_ in walk(body):
-        if c_.get('kind') == 'CallExpr' and not falls_through(c_):
-            d_ = callee_decl(c_, u)
-            hb_ = body_of(d_) if d_ is not None else None
-            if hb_ is None and d_ is not None:
-                d_ = next((m_ for m_ in u.functions if m_.get('mangledName') == d_.get('mangledName') and body_of(m_) is not None), None)
+        def pred_value(facts):
+            """value of pred implied by facts (True/False/None)"""
+            val = None
+            for n, pol in atoms(facts):
+                rd = ref_decl(n)
+                if rd and rd.get('id') == pred_id:
+                    val = pol
+            return val
+        throws = [x for x in walk(body) if x.get('kind') == 'CXXThrowExpr']
+        # a call of a helper that never returns and forwards (msg, file, line) to the exception is a throw site
+        fwd_map = {}
+        for c_ in walk(body):
+            if c_.get('kind') == 'CallExpr' and not falls_through(c_):
+                d_ = callee_decl(c_, u)
                 hb_ = body_of(d_) if d_ is not None else None
-            if hb_ is not None:
-                ht_ = [x for x in walk(hb_) if x.get('kind') == 'CXXThrowExpr']
-                if len(ht_) == 1:
-                    throws.append(c_)
-                    fwd_map[id(c_)] = (ht_[0], d_)
-    rets = [x for x in walk(body) if x.get('kind') == 'ReturnStmt']
-    ctx.check(len(throws) >= 1, R, 'throws-exist', body, '%d throw site(s)' % len(throws), 'expect_generic never throws')
-    for i, t in enumerate(throws):
-        pv = pred_value(path_facts(t))
-        ctx.check(pv is False, R, 'throw-only-when-pred-false|%d' % i, t, 'throw reached only under !pred', 'throw reachable when pred is %s' % ('true' if pv else 'unconstrained'))
-        t_call = t
-        if id(t) in fwd_map:
-            t, hd_ = fwd_map[id(t)]
-        ty = _thrown_type(t) or ''
-        ctx.check(ty.endswith('expectation_failed'), R, 'throw-type|%d' % i, t, 'throws expectation_failed', 'throws %s' % ty)
-        ce = [x for x in walk(t) if x.get('kind') in ('CXXConstructExpr', 'CXXTemporaryObjectExpr') and (dtype(x) or '').endswith('expectation_failed') and len(kids(x)) == 3]
-        if ce:
-            names = [(ref_decl(a) or {}).get('name') for a in kids(ce[0])]
-            if id(t_call) in fwd_map:
-                # through the helper: its parameters, in order, bound to the caller's (msg, file, line)
-                pn_ = [p_.get('name') for p_ in params_of(hd_)]
-                an_ = [(ref_decl(a) or {}).get('name') for a in call_args(t_call)]
-                names = [an_[pn_.index(n_)] if n_ in pn_ and pn_.index(n_) < len(an_) else None for n_ in names]
-            ctx.check(names == ['msg', 'file', 'line'], R, 'throw-args|%d' % i, t, 'expectation_failed(msg, file, line)', 'exception constructed from %s' % names)
+                if hb_ is None and d_ is not None:
+                    d_ = next((m_ for m_ in u.functions if m_.get('mangledName') == d_.get('mangledName') and body_of(m_) is not None), None)
+                    hb_ = body_of(d_) if d_ is not None else None
+                if hb_ is not None:
+                    ht_ = [x for x in walk(hb_) if x.get('kind') == 'CXXThrowExpr']
+                    if len(ht_) == 1:
+                        throws.append(c_)
+                        fwd_map[id(c_)] = (ht_[0], d_)
+        rets = [x for x in walk(body) if x.get('kind') == 'ReturnStmt']
+        ctx.check(len(throws) >= 1, R, 'throws-exist', body, '%d throw site(s)' % len(throws), 'expect_generic never throws')
+        for i, t in enumerate(throws):
+            pv = pred_value(path_facts(t))
+            ctx.check(pv is False, R, 'throw-only-when-pred-false|%d' % i, t, 'throw reached only under !pred', 'throw reachable when pred is %s' % ('true' if pv else 'unconstrained'))
+            t_call = t
+            if id(t) in fwd_map:
+                t, hd_ = fwd_map[id(t)]
+            ty = _thrown_type(t) or ''
+            ctx.check(ty.endswith('expectation_failed'), R, 'throw-type|%d' % i, t, 'throws expectation_failed', 'throws %s' % ty)
+            ce = [x for x in walk(t) if x.get('kind') in ('CXXConstructExpr', 'CXXTemporaryObjectExpr') and (dtype(x) or '').endswith('expectation_failed') and len(kids(x)) == 3]
+            if ce:
+                names = [(ref_decl(a) or {}).get('name') for a in kids(ce[0])]
+                if id(t_call) in fwd_map:
+                    # through the helper: its parameters, in order, bound to the caller's (msg, file, line)
+                    pn_ = [p_.get('name') for p_ in params_of(hd_)]
+                    an_ = [(ref_decl(a) or {}).get('name') for a in call_args(t_call)]
+                    names = [an_[pn_.index(n_)] if n_ in pn_ and pn_.index(n_) < len(an_) else None for n_ in names]
+                ctx.check(names == ['msg', 'file', 'line'], R, 'throw-args|%d' % i, t, 'expectation_failed(msg, file, line)', 'exception constructed from %s' % names)
+            else:
+                ctx.bad(R, 'throw-args|%d' % i, t, 'cannot find the expectation_failed(msg, file, line) construction')
+        for i, r in enumerate(rets):
+            pv = pred_value(path_facts(r))
+            ctx.check(pv is True, R, 'return-only-when-pred-true|%d' % i, r, 'return reached only under pred', 'returns normally although pred may be false')
+        if falls_through(body):
+            pv = pred_value(facts_at_end(body))
+            ctx.check(pv is True, R, 'end-only-when-pred-true', body, 'end of body reached only under pred', 'function completes normally although pred may be false')
         else:
-            ctx.bad(R, 'throw-args|%d' % i, t, 'cannot find the expectation_failed(msg, file, line) construction')
-    for i, r in enumerate(rets):
-        pv = pred_value(path_facts(r))
-        ctx.check(pv is True, R, 'return-only-when-pred-true|%d' % i, r, 'return reached only under pred', 'returns normally although pred may be false')
-    if falls_through(body):
-        pv = pred_value(facts_at_end(body))
-        ctx.check(pv is True, R, 'end-only-when-pred-true', body, 'end of body reached only under pred', 'function completes normally although pred may be false')
-    else:
-        ctx.ok(R, 'end-unreachable', body, 'body never falls off its end')
-    # nothing else can throw before the decision (no calls at all outside the throw expression)
-    ctor = u.func('phosg::expectation_failed::expectation_failed')[0]
-    ctx.fn('phosg::expectation_failed::expectation_failed')
-    inits = [c for c in kids(ctor) if c.get('kind') == 'CXXCtorInitializer' and 'anyInit' in c]
-    seen = {}
-    for c in inits:
-        seen[c['anyInit']['name']] = (ref_decl(c['inner'][0]) or {}).get('name') if c.get('inner') else None
-    for m in ('msg', 'file', 'line'):
-        ctx.check(seen.get(m) == m, R, 'ctor-member|' + m, ctor, 'member %s initialised from parameter %s' % (m, m), 'member %s initialised from %s' % (m, seen.get(m)))
+            ctx.ok(R, 'end-unreachable', body, 'body never falls off its end')
+        # nothing else can throw before the decision (no calls at all outside the throw expression)
+        ctor = u.func('phosg::expectation_failed::expectation_failed')[0]
+        ctx.fn('phosg::expectation_failed::expectation_failed')
+        inits = [c for c in kids(ctor) if c.get('kind') == 'CXXCtorInitializer' and 'anyInit' in c]
+        seen = {}
+        for c in inits:
+            seen[c['anyInit']['name']] = (ref_decl(c['inner'][0]) or {}).get('name') if c.get('inner') else None
+        for m in ('msg', 'file', 'line'):
+            ctx.check(seen.get(m) == m, R, 'ctor-member|' + m, ctor, 'member %s initialised from parameter %s' % (m, m), 'member %s initialised from %s' % (m, seen.get(m)))
 
     # ---- R3 expect_raises_fn
     insts = w.func('phosg::expect_raises_fn')
